@@ -94,6 +94,8 @@ func (User) IsPet()          {}
 type Box struct {
 	ID    string
 	Label *string
+	Seal  string
+	Code  int
 }
 
 type Item struct {
